@@ -17,7 +17,7 @@ import random
 
 from simkit.driver import Check, base_result
 from ref import codec as C
-from checks.worlda import (WorldA, draw_knobs, draw_sched, NODE_HOST, NODE_REALM,
+from checks.worlda import (WorldA, draw_knobs, draw_sched, draw_func_stalls, install_func_stalls, NODE_HOST, NODE_REALM,
                            PEER_HOST, PEER_REALM)
 
 APP_ID = 16777251
@@ -26,7 +26,7 @@ POINTS_CLIENT = ["connecting", "cer_sent", "open_idle", "open_traffic", "open_pa
 POINTS_SERVER = ["accepted_no_cer", "open_idle", "open_traffic", "open_parked", "closing"]
 CAUSES = {
     "connecting": ["refused", "local_close", "never"],
-    "cer_sent": ["peer_eof", "peer_rst", "local_close", "non_cea"],
+    "cer_sent": ["peer_eof", "peer_rst", "local_close", "non_cea", "local_close_cross_cea"],
     "accepted_no_cer": ["peer_eof", "peer_rst"],
     "open_idle": ["local_close", "peer_dpr", "peer_eof", "peer_rst"],
     "open_traffic": ["local_close", "peer_dpr", "peer_eof", "peer_rst"],
@@ -58,6 +58,10 @@ class C08(Check):
         cause = rng.choice(CAUSES[point])
         knobs = draw_knobs(rng)
         knobs["SLEEP_TIMER"] = rng.choice([0.1, 0.3, 1.0])
+        sched = draw_sched(rng)
+        # a connect that never completes is spun on by test_connection(): bound the simulated kernel's
+        # connect timeout by what the spin costs in steps at this run's CPU quantum
+        ctimeout = max(0.02, min(0.4, 300000 * sched["quantum"]))
         return {"mode": mode, "point": point, "cause": cause,
                 "cause_delay": rng.choice([0.0, 0.0, 0.0003, 0.002, 0.011, 0.05, 0.3]),
                 # anchored placement (peer-side causes): fire the cause when a library thread
@@ -67,8 +71,14 @@ class C08(Check):
                     "thread": rng.choice(["psm_thread", "transport_layer_thread", "recv_message_monitor"]),
                     "k": (index // 2) % 400 if tier == "thorough" else rng.randrange(0, 400)},
                 "traffic_in": rng.choice([1, 3, 6]), "traffic_out": rng.choice([0, 2, 5]),
-                "sched": draw_sched(rng), "knobs": knobs,
-                "net": {"max_latency": rng.choice([0.0005, 0.003]), "connect_timeout": 0.4,
+                # a consumer that ENTERS get_message() while the connection is going down, descheduled
+                # for a while within its first steps (the window between its checks and its wait)
+                "late_consumer": None if rng.random() < 0.6 else {
+                    "after": rng.choice([0.0, 0.0, 0.0005, 0.005, 0.05]), "at": rng.randrange(0, 24),
+                    "dur": rng.choice([0.05, 0.5, 1.5])},
+                "func_stalls": draw_func_stalls(rng),
+                "sched": sched, "knobs": knobs, "max_steps": 4_000_000,
+                "net": {"max_latency": rng.choice([0.0005, 0.003]), "connect_timeout": ctimeout,
                         "personality": rng.choice(["linux", "linux", "linux", "windows"]) if point == "connecting" else "linux"},
                 "restart": True, "watchdog": 30, "horizon": 90.0}
 
@@ -81,6 +91,14 @@ class C08(Check):
         if scn["point"] in ("open_traffic", "open_parked"):
             c = copy.deepcopy(scn)
             c["point"] = "open_idle"
+            yield c
+        if scn.get("late_consumer"):
+            c = copy.deepcopy(scn)
+            c["late_consumer"] = None
+            yield c
+        for i in range(len(scn.get("func_stalls", []))):
+            c = copy.deepcopy(scn)
+            del c["func_stalls"][i]
             yield c
         if scn["net"].get("personality") != "linux":
             c = copy.deepcopy(scn)
@@ -99,6 +117,8 @@ class C08(Check):
         if point == "closing" or cause == "peer_dpr_cross":
             peerb["answer_dpr"] = False
             peerb["close_on_dpa_rcv"] = True
+        if cause == "local_close_cross_cea":
+            peerb["answer_dpr"] = True
         scn["peer"] = peerb
         if point == "accepted_no_cer":
             scn["auto_peer_cer"] = False
@@ -191,6 +211,17 @@ class C08(Check):
                     sim.probe("anchored_cause")
             if anchored is None and scn["cause_delay"]:
                 sim.sleep(scn["cause_delay"])
+            sim.func_calls.clear()
+            install_func_stalls(sim, scn.get("func_stalls"))
+            late = scn.get("late_consumer")
+            late_rec = []
+            if late and point in ("open_idle", "open_traffic", "open_parked", "closing"):
+                def start_late():
+                    rec = w.start_consumer("late_consumer")
+                    th = rec["thread"]
+                    th.stall_plan = sorted([p for p in (th.stall_plan or []) if p[0] < (1 << 59)] + [(th.steps + late["at"], late["dur"])])
+                    late_rec.append(rec)
+                w.call("late_starter", lambda: (sim.sleep(late["after"]), start_late()))
             # ---- apply the cause ---------------------------------------------
             st["cause_applied_at"] = sim.now
             st["state_at_cause"] = w.state()
@@ -198,6 +229,17 @@ class C08(Check):
                 pass
             elif cause == "local_close":
                 closer = w.call("close", w.node.close)
+            elif cause == "local_close_cross_cea":
+                # the application stops the node at the very moment the peer's CEA arrives: whichever
+                # wins, the node must end Closed (directly, or through Open -> DPR -> DPA)
+                cers = [m for m in w.peer.rx if m["code"] == C.CE and C.is_request(m)]
+                order = sim.choose("cross", 2)
+                if order == 0:
+                    w.peer.send(C.cea(PEER_HOST, PEER_REALM, hbh=cers[-1]["hbh"], e2e=cers[-1]["e2e"]))
+                    closer = w.call("close", w.node.close)
+                else:
+                    closer = w.call("close", w.node.close)
+                    w.peer.send(C.cea(PEER_HOST, PEER_REALM, hbh=cers[-1]["hbh"], e2e=cers[-1]["e2e"]))
             elif cause == "peer_dpr":
                 w.peer.send(C.dpr(PEER_HOST, PEER_REALM, hbh=0x77, e2e=0x88))
             elif cause == "peer_eof":
@@ -221,11 +263,11 @@ class C08(Check):
                 pass       # the cause is the connect outcome itself
             # a local close issued while the state machine reports Closed is refused by the API
             # (documented guard): then there is no connection to end
-            if cause == "local_close":
+            if cause in ("local_close", "local_close_cross_cea"):
                 sim.wait_until(lambda: closer["t1"] is not None, D, poll=0.002)
                 st["close_call"] = {"ok": closer["ok"], "exc": closer["exc"]}
 
-            if cause == "local_close" and st.get("close_call", {}).get("ok") is False and \
+            if cause in ("local_close", "local_close_cross_cea") and st.get("close_call", {}).get("ok") is False and \
                     "already closed" in (st["close_call"]["exc"] or ""):
                 # the API refused the close() because the state machine (truthfully)
                 # reported Closed at that instant: the caller was told, no cause was applied
@@ -258,6 +300,15 @@ class C08(Check):
                           if s.state != "closed" or s.selectors]
             if open_socks:
                 viol("releases its sockets", "sockets-open", {"sockets": open_socks, "state": w.state()})
+            for rec in late_rec:
+                if rec["t1"] is None and not any(v["sig"].startswith("C08/consumer-stuck") for v in violations):
+                    # give a consumer that was descheduled its full stall plus D
+                    sim.wait_until(lambda: rec["t1"] is not None, late["dur"] + D, poll=D / 40.0)
+                    if rec["t1"] is None:
+                        th = rec["thread"]
+                        viol("application calls blocked waiting for a message return", "consumer-stuck",
+                             {"thread_state": th.state, "wait_on": repr(th.wait_on), "state": w.state(),
+                              "consumer": "entered get_message() during teardown", "late": late})
             if consumer is not None and consumer["t1"] is None:
                 th = consumer["thread"]
                 viol("application calls blocked waiting for a message return", "consumer-stuck",
